@@ -361,10 +361,13 @@ func msgFamilies(w *world) []*Family {
 	for _, code := range codes {
 		code := code
 		ss := bycode[code]
-		opt := playOpt{mine: code == 0x06}
+		opt := playOpt{}
 		add(fmt.Sprintf("%02x/sample", code), 4, func(th bool, emit func(Case)) {
 			for _, s := range ss {
 				emit(one(fmt.Sprintf("msg/%02x/sample/%s", code, s.name), code, s.payload, opt))
+				if code == 0x06 {
+					emit(one(fmt.Sprintf("msg/%02x/sample/%s/then-the-node-mines", code, s.name), code, s.payload, playOpt{mine: true}))
+				}
 			}
 		})
 		add(fmt.Sprintf("%02x/trunc", code), 1, func(th bool, emit func(Case)) {
